@@ -432,7 +432,7 @@ class Campaign:
         self.n += 1
         tag = '%s%04d' % (job.get('kind', 'c'), job['idx'])
         ranks = cfg.get('ranks', 1)
-        to = job.get('timeout', 900); stall = job.get('stall_s', 60 if ranks == 1 else 90)
+        to = job.get('timeout', 900 if getattr(ctx, 'tier', 'quick') == 'thorough' else 300); stall = job.get('stall_s', 60 if ranks == 1 else 90)   # quick tier: a job that needs > 5 min is inconclusive
         attempt = [0]
 
         def runner():
